@@ -291,6 +291,14 @@ def equivalent(a, b, extra_rules=None) -> str:
     if a == b:
         return Verdict.EQUAL
     try:
+        a2, b2 = canon_filled_arrays(a), canon_filled_arrays(b)
+        if a2 != a or b2 != b:
+            a, b = a2, b2
+            if a == b:
+                return Verdict.EQUAL
+    except Exception:
+        pass
+    try:
         d = sp.expand(a - b)
         if d == 0:
             return Verdict.EQUAL
@@ -307,7 +315,23 @@ def equivalent(a, b, extra_rules=None) -> str:
         pass
     if has_unknown(a) or has_unknown(b):
         return Verdict.UNKNOWN
+    # array-structure operators (slices, stores, rolls, loop summaries): compare the arrays the two terms denote
+    try:
+        from .arrayeval import same_array
+        if _has_array_structure(a) or _has_array_structure(b):
+            r = same_array(a, b)
+            if r is True:
+                return Verdict.EQUAL
+    except Exception:
+        pass
     return Verdict.DIFFERENT
+
+
+def _has_array_structure(t) -> bool:
+    for n in sp.preorder_traversal(t):
+        if fname(n) in ("store", "roll", "diff", "slc", "tabulate", "loopsum", "expand_dims", "arange", "cumsum"):
+            return True
+    return False
 
 
 def abstract_opaque(t: sp.Basic) -> sp.Basic:
@@ -388,5 +412,30 @@ def strip_never(t: sp.Basic) -> sp.Basic:
                 return n.args[1]
             if fname(n.args[1]) == "never":
                 return n.args[2]
+        return None
+    return rewrite(to_term(t), fn)
+
+
+def canon_filled_arrays(t: sp.Basic) -> sp.Basic:
+    """An array allocated empty and filled by slice/index stores, when it denotes a cyclic forward or backward difference of one
+    input vector, is rewritten to the canonical roll form (decided by the array identity test, not by the spelling)."""
+    from .arrayeval import same_array, _atoms
+
+    def fn(n):
+        if fname(n) != "store":
+            return None
+        base = n
+        while fname(base) == "store":
+            base = base.args[0]
+        if fname(base) not in ("empty", "zeros", "full"):
+            return None
+        ats = []
+        _atoms(n, ats)
+        if len(ats) != 1:
+            return None
+        x = ats[0]
+        for cand in (op("roll", x, sp.Integer(-1)) - x, x - op("roll", x, sp.Integer(1))):
+            if same_array(n, cand) is True:
+                return cand
         return None
     return rewrite(to_term(t), fn)
